@@ -68,9 +68,9 @@ type Interp struct {
 	MapLookup  func(f *frame, x *ssa.Lookup, st *State) Val
 	Intrinsic  func(fn *ssa.Function, args []Val, st *State) (Val, bool)
 	InvokeHook func(recv Val, m *types.Func, args []Val, rt types.Type, st *State) (Val, bool)
-	curPos  token.Pos
-	curFn   *ssa.Function
-	initMode bool
+	curPos     token.Pos
+	curFn      *ssa.Function
+	initMode   bool
 }
 
 func newInterp(P *Program) *Interp {
@@ -119,22 +119,22 @@ type Summary struct {
 type edgeKey struct{ from, to int }
 
 type frame struct {
-	in    *Interp
-	fn    *ssa.Function
-	env   map[ssa.Value]Val
-	out   map[int]*State   // block index -> state at block end
-	bc    map[edgeKey]Bit  // branch condition of edge
-	local map[int]Bit      // reach condition relative to idom
-	live  map[int]bool     // block was reached
-	rets  []retArrival
-	loops map[int]map[int]bool // header -> body set
-	loopExt map[int]map[int]bool // header -> body plus terminal exit subtrees
-	rpo   []*ssa.BasicBlock
-	rpoIx map[int]int
-	panicIf Bit
-	refs  map[int]map[*Source]*BV // block -> equalities source==const known to hold there
-	facts map[int]*factSet        // block -> literal facts known to hold there
-	cur   *ssa.BasicBlock
+	in       *Interp
+	fn       *ssa.Function
+	env      map[ssa.Value]Val
+	out      map[int]*State  // block index -> state at block end
+	bc       map[edgeKey]Bit // branch condition of edge
+	local    map[int]Bit     // reach condition relative to idom
+	live     map[int]bool    // block was reached
+	rets     []retArrival
+	loops    map[int]map[int]bool // header -> body set
+	loopExt  map[int]map[int]bool // header -> body plus terminal exit subtrees
+	rpo      []*ssa.BasicBlock
+	rpoIx    map[int]int
+	panicIf  Bit
+	refs     map[int]map[*Source]*BV // block -> equalities source==const known to hold there
+	facts    map[int]*factSet        // block -> literal facts known to hold there
+	cur      *ssa.BasicBlock
 	hdrPreds []*ssa.BasicBlock
 }
 
